@@ -13,3 +13,7 @@ fn core(_py: Python<'_>, m: &PyModule) -> PyResult<()> {
     m.add_function(wrap_pyfunction!(order_book::order_book_from_json, m)?)?;
     Ok(())
 }
+
+#[cfg(any(kani, verif_replay))]
+#[path = "/verif/harness/py_lib.rs"]
+pub mod verif;
